@@ -420,7 +420,11 @@ func Run(o *hx.Opts, w *lineio.Writer) error {
 	}
 	// the runtime's reaction to a reply cut in the middle of a frame depends on which of two
 	// goroutines notices first: repeat those points
-	reps := o.N(12, 60)
+	reps := o.N(40, 150)
+	var race []*rt.Job
+	addRace := func(in *In) {
+		race = append(race, &rt.Job{ID: fmt.Sprintf("race-%s%d-e%d-p%d-%d", in.Fault.Dir, in.Fault.Off, in.Ev, in.Pos, len(race)), In: in})
+	}
 	for _, ev := range reqTypes {
 		for pos := 0; pos < 3; pos++ {
 			l := ln[fmt.Sprintf("%d-%d-%v", ev, pos, false)]
@@ -429,7 +433,7 @@ func Run(o *hx.Opts, w *lineio.Writer) error {
 					if off >= l.p2r {
 						off = l.p2r - 1
 					}
-					add(mk(ev, pos, Fault{Kind: "cut", Dir: "p2r", Off: off}, false))
+					addRace(mk(ev, pos, Fault{Kind: "cut", Dir: "p2r", Off: off}, false))
 				}
 			}
 		}
@@ -449,5 +453,11 @@ func Run(o *hx.Opts, w *lineio.Writer) error {
 	}
 	err := rt.Dispatch(o.Scratch, "C07", "", jobs, 25, par, 20*time.Second)
 	emit(w, jobs)
+	// two OS threads: the window in which both wake-up reasons are pending is widest
+	err2 := rt.Dispatch(o.Scratch, "C07", "", race, 100, par, 20*time.Second, "GOMAXPROCS=2")
+	emit(w, race)
+	if err == nil {
+		err = err2
+	}
 	return err
 }
